@@ -1026,6 +1026,37 @@ func knownAnnHistory() [][]pipeline.Change {
 // C01/ingress-default-backend-not-pretracked: ingress ing2 owns the root path of the
 // default host through its spec.defaultBackend; ing1, which sorts before it, is created
 // with a spec.defaultBackend of its own. A fresh controller gives the root path to ing1.
+// builtinOracleHistories are fixed histories of the oracle stream (they run first on every
+// check, after the corpus files): situations the random generator reaches too rarely in
+// the quick tier.
+func builtinOracleHistories() [][][]pipeline.Change {
+	mk := func(o ...client.Object) []pipeline.Change {
+		var out []pipeline.Change
+		for _, x := range o {
+			out = append(out, pipeline.Change{Op: pipeline.Create, Obj: x})
+		}
+		return out
+	}
+	svc := func(name, ip string) (client.Object, client.Object) {
+		return world.Service("ns1", name, world.SvcPort{Name: "http", Port: 80, TargetPort: intstr.FromInt(8080)}),
+			world.Endpoints("ns1", name, world.EpPort{Name: "http", Port: 8080, Ready: []string{ip}})
+	}
+	s1, e1 := svc("svc1", "10.1.0.1")
+	s2, e2 := svc("svc2", "10.1.0.2")
+	// the default host exists (host-less rule of ing1); later ing2 arrives with ONLY a
+	// host-less rule towards a service nobody else uses: nothing but the default host changes
+	ing1 := world.Ingress("ns1", "ing1", 10, world.IngRule{Host: "", Paths: []world.IngPath{{Path: "/", Type: "Prefix", Service: "svc1", PortNum: 80}}},
+		world.IngRule{Host: "a.example", Paths: []world.IngPath{{Path: "/", Type: "Prefix", Service: "svc1", PortNum: 80}}})
+	ing2 := world.Ingress("ns1", "ing2", 20, world.IngRule{Host: "", Paths: []world.IngPath{{Path: "/app", Type: "Prefix", Service: "svc2", PortNum: 80}}})
+	h1 := [][]pipeline.Change{mk(s1, e1, s2, e2, ing1), mk(ing2)}
+	// the same with an update: ing2 exists with a declared host and GAINS the host-less rule
+	ing2a := world.Ingress("ns1", "ing2", 20, world.IngRule{Host: "b.example", Paths: []world.IngPath{{Path: "/", Type: "Prefix", Service: "svc2", PortNum: 80}}})
+	ing2b := world.Ingress("ns1", "ing2", 20, world.IngRule{Host: "b.example", Paths: []world.IngPath{{Path: "/", Type: "Prefix", Service: "svc2", PortNum: 80}}},
+		world.IngRule{Host: "", Paths: []world.IngPath{{Path: "/app", Type: "Prefix", Service: "svc2", PortNum: 80}}})
+	h2 := [][]pipeline.Change{mk(s1, e1, s2, e2, ing1, ing2a), {{Op: pipeline.Update, Obj: ing2b}}}
+	return [][][]pipeline.Change{h1, h2}
+}
+
 func knownDefaultBackendHistory() [][]pipeline.Change {
 	svc1, ep1 := world.Service("ns1", "svc1", world.SvcPort{Name: "http", Port: 80, TargetPort: intstr.FromInt(8080)}),
 		world.Endpoints("ns1", "svc1", world.EpPort{Name: "http", Port: 8080, Ready: []string{"10.1.0.1"}})
@@ -1070,6 +1101,12 @@ func main() {
 			var in oracleInput
 			hx.ReadReplay(f, &in)
 			histories = append(histories, world.DecodeHistory(in.History))
+			isCorpus = append(isCorpus, true)
+		}
+	}
+	if o.Replay == "" {
+		for _, h := range builtinOracleHistories() {
+			histories = append(histories, h)
 			isCorpus = append(isCorpus, true)
 		}
 	}
